@@ -25,6 +25,10 @@ def with_parts(rng, cfg):
         if rng.random() < 0.6:       # observed rows of the parameter the equation reads: they belong to the observation term only
             cfg["obs"]["arows"] = [dy(rng, 2, 6) for _ in range(n)]
     cfg["dyn"] = rng.random() < 0.9
+    if rng.random() < 0.25 and not cfg.get("reweight"):
+        cfg["omit_unit_weights"] = True           # weights equal to 1 are left to their documented default
+        if not isinstance(cfg["w_dyn"], list) and rng.random() < 0.5:
+            cfg["w_dyn"] = 1.0; cfg["no_lw"] = True           # ... or no weight container is given at all
     if rng.random() < 0.3:
         cfg["dk"] = rand_dk(rng, kind)
         if rng.random() < 0.5:
@@ -138,7 +142,7 @@ def generate(tier, seed, casedir, variant):
             continue
         k = f"{cfg['kind']}_{'vecw' if isinstance(cfg['w_dyn'], list) else 'scalarw'}_{len(cfg['res'])}comp"
         dist[k] = dist.get(k, 0) + 1
-        for p in ("ic", "norm", "obs", "dk"):
+        for p in ("ic", "norm", "obs", "dk", "omit_unit_weights", "no_lw"):
             if cfg.get(p):
                 dist[p] = dist.get(p, 0) + 1
         if terms.get("dyn_loss", 0.0) != 0.0 and len(cfg["batch"]) > 1:
